@@ -275,7 +275,7 @@ func TestCheck(t *testing.T) {
 	}
 	depth := func(c int) int {
 		if run.Thorough() {
-			return []int{6, 6, 5, 5, 4}[c]
+			return []int{6, 5, 5, 4, 4}[c]
 		}
 		return []int{5, 4, 4, 3, 3}[c]
 	}
